@@ -1,4 +1,7 @@
 import TF.Proofs.BField
+import TF.Proofs.BFieldModel
+import TF.Proofs.BFieldZMod
+import TF.Proofs.XField
 /-!
 # C01 — base and extension field arithmetic is exact and canonical
 
@@ -10,7 +13,7 @@ Notation: a field element is represented by its raw Montgomery word `r`; `canon 
 its value is `bfe_value r` (the translated `canonical_representation`).
 -/
 namespace TF.C01
-open TF.Gen TF.BF
+open TF.Gen TF.BF TF.Model TF.Spec
 
 /-- Montgomery reduction is exact on its whole domain `x < P·2^64` (all products of canonical words):
     canonical result, `montyred x · 2^64 ≡ x (mod P)`, and no arithmetic overflow anywhere. -/
@@ -54,5 +57,89 @@ theorem mul_exact (a b : Nat) (ha : a < P) (hb : b < P) :
     bfe_mul a b < P ∧ bfe_value (bfe_mul a b) = (bfe_value a * bfe_value b) % P ∧ bfe_mul_ok a b = true :=
   ⟨(mul_spec a b ha hb).1, (mul_spec a b ha hb).2, mul_ok a b ha hb⟩
 example : (18446744069414584320 : Nat) < P := by decide
+
+/-- `From<u128>`: every 128-bit input is reduced exactly (`mod_reduce` then `new`), without overflow -/
+theorem from_u128_exact (x : Nat) (hx : x < 2^128) :
+    BF.fromU128 x < P ∧ bfe_value (BF.fromU128 x) = x % P ∧ mod_reduce_ok x = true := by
+  have h := mod_reduce_spec x (by unfold W; omega)
+  have hn := new_spec (mod_reduce x) h.1
+  refine ⟨hn.1, ?_, mod_reduce_ok_true x⟩
+  unfold BF.fromU128
+  rw [hn.2]; exact h.2
+example : (340282366920938463463374607431768211455 : Nat) < 2^128 := by decide
+
+/-- the raw-word operations are the field operations of `ZMod P` under the bijection `toF` between canonical words
+    and `ZMod P` (so every generic algorithm of the library that reaches the base field only through its operators
+    computes in the field `ZMod P`) -/
+theorem field_iso (a b : Nat) (ha : a < P) (hb : b < P) :
+    toF (bfe_add a b) = toF a + toF b ∧ toF (bfe_sub a b) = toF a - toF b ∧
+    toF (bfe_mul a b) = toF a * toF b ∧ toF (BF.neg a) = - toF a ∧
+    (toF a = toF b ↔ a = b) :=
+  ⟨toF_add a b ha hb, toF_sub a b ha hb, toF_mul a b ha hb, toF_neg a ha,
+   ⟨toF_inj a b ha hb, fun h => by rw [h]⟩⟩
+
+/-- `mod_pow` (every `u64` exponent — in fact every exponent) is the repeated product -/
+theorem mod_pow_exact (a : Nat) (ha : a < P) (e : Nat) :
+    BF.modPow a e < P ∧ bfe_value (BF.modPow a e) = (bfe_value a) ^ e % P := modPow_value a ha e
+
+/-- `inverse`: for every non-zero element, the unique multiplicative inverse (canonical); panics exactly on zero -/
+theorem inverse_exact (x : Nat) (hx : x < P) :
+    (x = BF.zero → BF.inverse x = none) ∧
+    (x ≠ BF.zero → ∃ r, BF.inverse x = some r ∧ r < P ∧ (bfe_value r * bfe_value x) % P = 1 ∧
+        ∀ y, y < P → (y * bfe_value x) % P = 1 → y = bfe_value r) := by
+  refine ⟨(inverse_chain x hx).1, fun hnz => ?_⟩
+  obtain ⟨r, hr, hc, hm⟩ := inverse_spec x hx hnz
+  refine ⟨r, hr, hc, hm, fun y hy h => ?_⟩
+  exact inverse_unique (bfe_value x) y (bfe_value r) hy (value_lt r (Nat.lt_trans hc Pn_lt_W)) h hm
+example : (1 : Nat) < P ∧ (1 : Nat) ≠ BF.zero := by decide
+
+/-- `inverse_or_zero` -/
+theorem inverse_or_zero_exact (x : Nat) (hx : x < P) :
+    (x = BF.zero → BF.inverseOrZero x = BF.zero) ∧
+    (x ≠ BF.zero → (bfe_value (BF.inverseOrZero x) * bfe_value x) % P = 1) := by
+  constructor
+  · intro h; unfold BF.inverseOrZero; simp [h]
+  · intro h
+    obtain ⟨r, hr, _, hm⟩ := inverse_spec x hx h
+    have h0 : (x == BF.zero) = false := by simpa using h
+    unfold BF.inverseOrZero
+    simp only [h0, hr, Option.getD_some, Bool.false_eq_true, if_false]
+    exact hm
+
+/-- `Div`: `a / b = a · b⁻¹`, panics exactly for `b = 0` -/
+theorem div_exact (a b : Nat) (ha : a < P) (hb : b < P) :
+    (b = BF.zero → BF.div a b = none) ∧
+    (b ≠ BF.zero → ∃ r, BF.div a b = some r ∧ r < P ∧ toF r * toF b = toF a) := by
+  constructor
+  · intro h; unfold BF.div; rw [h, inverse_zero]; rfl
+  · intro h
+    obtain ⟨bi, hbi, hc, hv⟩ := toF_inverse b hb h
+    refine ⟨bfe_mul bi a, by unfold BF.div; rw [hbi]; rfl, canon_mul _ _ hc ha, ?_⟩
+    rw [toF_mul _ _ hc ha, hv]
+    have : toF b ≠ 0 := fun h0 => h ((toF_eq_zero b hb).1 h0)
+    field_simp
+
+/-- **batch inversion**: any vector of non-zero elements is mapped to the vector of inverses (canonical words);
+    a vector containing zero panics; the empty vector is returned unchanged -/
+theorem batch_inversion_exact (xs : List Nat) :
+    ((∀ x ∈ xs, x < P ∧ x ≠ BF.zero) →
+      ∃ rs, BF.batchInversion xs = some rs ∧ (∀ r ∈ rs, r < P) ∧ rs.map toF = xs.map (fun x => (toF x)⁻¹)) ∧
+    (BF.zero ∈ xs → BF.batchInversion xs = none) :=
+  ⟨batchInversion_spec xs, batchInversion_zero xs⟩
+example : ∀ x ∈ [BF.one, bfe_new 5], x < P ∧ x ≠ BF.zero := by decide
+
+/-- extension field: the product of two elements with canonical coefficients has canonical coefficients and is the
+    polynomial product modulo `X³ − X + 1` (ring identity in an arbitrary point `t`, explicit quotient) -/
+theorem xfe_mul_exact (x y : XF.X3) (hx : TF.XFp.canon3 x) (hy : TF.XFp.canon3 y) (t : Fp) :
+    TF.XFp.canon3 (XF.mul x y) ∧
+    TF.XFp.ev t x * TF.XFp.ev t y = TF.XFp.ev t (XF.mul x y)
+      + (t^3 - t + 1) * ((toF x.2.2 * toF y.2.1 + toF x.2.1 * toF y.2.2) + toF x.2.2 * toF y.2.2 * t) :=
+  ⟨(TF.XFp.mul_coeffs x y hx hy).1, TF.XFp.mul_is_product_mod_shah x y hx hy t⟩
+
+/-- extension field addition and subtraction are coefficient-wise -/
+theorem xfe_add_sub_exact (x y : XF.X3) (hx : TF.XFp.canon3 x) (hy : TF.XFp.canon3 y) (t : Fp) :
+    (TF.XFp.canon3 (XF.add x y) ∧ TF.XFp.ev t (XF.add x y) = TF.XFp.ev t x + TF.XFp.ev t y) ∧
+    (TF.XFp.canon3 (XF.sub x y) ∧ TF.XFp.ev t (XF.sub x y) = TF.XFp.ev t x - TF.XFp.ev t y) :=
+  ⟨TF.XFp.add_coeffs x y hx hy t, TF.XFp.sub_coeffs x y hx hy t⟩
 
 end TF.C01
